@@ -317,8 +317,9 @@ def r06_2b(ctx):
                        "successive dyadic midpoints of the nodes on the way to it, and nothing else")
     sp = model.func(BI, "_Interval._split")
     icls = model.cls(BI, "_Interval")
-    for q in (1, 2, 3, 4, 5, 6, 7):
-        top, _ = bk.make_top(model, halfway=True)
+    for q, tol in [(q, Fraction(1, 10 ** 6)) for q in (1, 2, 3, 4, 5, 6, 7)] + [(1, Fraction(1, 2)), (3, Fraction(1, 2)),
+                                                                            (7, Fraction(1, 2)), (5, Fraction(1))]:
+        top, _ = bk.make_top(model, halfway=True, extra={"_tol": tol})
         splits = []
 
         class H(bk.BrownianHooks):
@@ -348,8 +349,8 @@ def r06_2b(ctx):
                 hi = mid
             else:
                 break
-        rep.check(splits == want, "R06.2b", astq.loc(sp), f"{sp.key}::R06.2b::q={q}",
-                  f"dyadic `_split` towards {q} on [0, 8] performs the exact splits {[(int(a), int(b), str(m)) for a, b, m in splits]}; "
+        rep.check(splits == want, "R06.2b", astq.loc(sp), f"{sp.key}::R06.2b::q={q},tol={tol}",
+                  f"dyadic `_split` towards {q} on [0, 8] (tol {tol}) performs the exact splits {[(int(a), int(b), str(m)) for a, b, m in splits]}; "
                   f"the dyadic tree requires {[(int(a), int(b), str(m)) for a, b, m in want]} (each node halved, "
                   f"descending towards the requested point, stopping when it is reached)", "dyadic bisection")
     # non-dyadic mode: one exact split at the requested point
